@@ -132,8 +132,22 @@ type c14Family struct {
 	long  bool     // token alphabet: shorter words
 }
 
+// c14LongNames: allowed names at and around the sizes at which a length-indexed table or bitmap would wrap.
+func c14LongNames() c14Family {
+	var f c14Family
+	for i, n := range []int{1, 63, 64, 65, 128, 255, 256, 300} {
+		name := string(rune('b'+i)) + strings.Repeat("x", n-1)
+		f.set = append(f.set, name)
+		f.alpha = append(f.alpha, name)
+	}
+	f.alpha = append(f.alpha, f.set[2]+"z", f.set[2][:63], f.set[6][:255], ",", " ", "\t")
+	f.long = true
+	return f
+}
+
 func c14Families() []c14Family {
 	return []c14Family{
+		c14LongNames(),
 		{set: []string{"a"}, alpha: []string{"a", "b", ",", " ", "\t", "A"}},
 		{set: []string{"a", "ab", "b"}, alpha: []string{"a", "b", "c", ",", " ", "\t", "A"}},
 		{set: []string{"b", "abc"}, alpha: []string{"a", "b", "c", ",", " ", "\t"}},
